@@ -8,7 +8,7 @@ class Prop:
     MODEL_TARGETS = ['model/Node.vo', 'model/NodeSpec.vo']
     TARGETS = ['props/C16.vo']
     PROPS_FILE = 'props/C16.v'
-    SUITES = [NodeSuite(evals={'mismatches': 'mismatches', 'spec_violations': 'spec_violations_c16'})]
+    SUITES = [NodeSuite(evals={'mismatches': 'mismatches', 'spec_violations': 'spec_violations_c16k', 'known:set-state-livelock': 'known_c16_livelock'})]
     RULE = base.Prop.RULE
     ASSUMPTIONS = base.Prop.ASSUMPTIONS
     TRUSTED = base.Prop.TRUSTED
